@@ -71,9 +71,9 @@ DefaultHostBits == 8
 Items == [ pp1   |-> {"192.168.2.0/24"},
            pp2   |-> {"12.0.0.0/8", "192.0.0.0/3"},
            ppdef |-> DefaultPrefixes,
-           pa1   |-> {"11.11.0.0/16", "111.111.111.111"},
+           pa1   |-> {"11.11.0.0/16", "111.111.111.111", "10.9.8.7"},
            parfc |-> RFC1918,
-           pamix |-> {"11.11.0.0/16", "111.111.111.111"} \cup RFC1918 ]
+           pamix |-> {"11.11.0.0/16", "111.111.111.111", "10.9.8.7"} \cup RFC1918 ]
 
 \* How an option given on the command line is spelled (v.sp[o]; None when the
 \* option is not on the command line).  Every legal spelling is the same option:
